@@ -302,6 +302,56 @@ def scenario_interpolated_dest(ck, stats, L):
     rmtree_long(sb.root)
 
 
+def scenario_interpolated_isdirectory(ck, stats, L):
+    """match ... and isdirectory "<base>/\\1" move "<dst>": the looked-up path is L characters long after interpolation;
+    directories exist at the intended path (when it can) and at its truncations"""
+    sb = mdrun.Sandbox()
+    src = sb.maildir('src'); dst = sb.maildir('dst')
+    base = sb.root + '/o'
+    os.makedirs(base)
+    cap_len = L - len(base) - 1
+    if cap_len < 1:
+        sb.cleanup(); return
+    comps = []
+    need = cap_len
+    while need > 0:
+        take = min(need, 200)
+        if need - take == 1:
+            take -= 1
+        comps.append('c' * take)
+        need -= take
+        if need > 0:
+            need -= 1
+    cap = '/'.join(comps)
+    if len(cap) != cap_len:
+        sb.cleanup(); return
+    dest = base + '/' + cap
+    made = []
+    for p in {dest, dest[:PATH_MAX - 1], dest[:PATH_MAX - 2], dest[:PATH_MAX - 5]}:
+        p = p.rstrip('/')
+        try:
+            makedirs_long(p); made.append(p)
+        except OSError:
+            pass
+    sb.add(src, 'new', b'Subject: ' + cap.encode() + b'\n\nb\n')
+    conf = sb.write_conf(b'maildir "%s" {\n match header "Subject" /(.*)/ and isdirectory "%s/\\1" move "%s"\n}\n' % (src.encode(), base.encode(), dst.encode()))
+    rc, out, err = sb.run([], conf=conf)
+    stats['binary'] += 1
+    left = sb.snapshot(src)
+    moved = sb.snapshot(dst)
+    fits = L < PATH_MAX
+    why = None
+    if fits:
+        if dest in made and (rc != 0 or len(moved) != 1 or left):
+            why = 'the directory exists under the intended path (%d characters) but exit %d, %d moved' % (L, rc, len(moved))
+    else:
+        if rc == 0 or moved or len(left) != 1:
+            why = 'the interpolated path has %d characters (does not fit): exit %d, %d message(s) moved - a directory was looked up under a shortened path' % (L, rc, len(moved))
+    if why:
+        ck.violation('isdirectory after interpolation: ' + why, {'scenario': 'interpolated_isdirectory', 'length': L, 'stderr': err[-300:].decode(errors='replace')})
+    rmtree_long(sb.root)
+
+
 def scenario_hostname(ck, stats, hl):
     """generated file name with a host name of length hl (pinned through the interposer)"""
     sb = mdrun.Sandbox()
@@ -408,6 +458,7 @@ def run(ck):
         scenario_maildir_path(ck, stats, L)
     for L in range(PATH_MAX - w - 4, PATH_MAX + w + 1, step):
         scenario_interpolated_dest(ck, stats, L)
+        scenario_interpolated_isdirectory(ck, stats, L)
     for k in (1, 2, 3, 5, 8):
         scenario_message_path(ck, stats, k, b'date modified > 1 hours')
     fixed = len('1700000000.4242_6.') + len(':2,')
@@ -420,7 +471,7 @@ def run(ck):
         'evaluations': stats['evals'] + stats['binary'],
         'distinct_nontrivial': len(stats['nontrivial']),
         'rule': 'pathslice: every path of <= %d components from {"", a, bc, new, md.x} (absolute/relative, trailing slash, empty components) x beg,end in a symmetric '
-                'range x buffer sizes {0,1,2,64,len-1,len,len+1}; pathjoin: lengths around the buffer size; binary: maildir path, interpolated destination, host name, '
+                'range x buffer sizes {0,1,2,64,len-1,len,len+1}; pathjoin: lengths around the buffer size; binary: maildir path, interpolated destination, interpolated isdirectory path (directories at the intended path and at its truncations), host name, '
                 'HOME and TMPDIR at every (quick: every other) length in a window around PATH_MAX / NAME_MAX with decoy maildirs at truncations. '
                 'non-trivial = the reference returns a string; distinct = distinct requests' % (4 if ck.tier == 'quick' else 5),
         'exhaustive': True,
@@ -439,4 +490,25 @@ def replay(ck, rp):
         out, _ = common.run_lines(drv, [rp['request']])
         print('implementation %s, intended %s' % (out[0] if out else '?', rp.get('reference')))
         return 0 if out and out[0] == rp.get('reference') else 1
-    return 1
+    # a binary scenario: run it again with the recorded parameter
+    stats = dict(binary=0, dis=0, prim=0)
+    import collections
+    stats = collections.defaultdict(int)
+    sc = rp.get('scenario')
+    if sc == 'maildir_path':
+        scenario_maildir_path(ck, stats, rp['length'])
+    elif sc == 'interpolated_dest':
+        scenario_interpolated_dest(ck, stats, rp['length'])
+    elif sc == 'interpolated_isdirectory':
+        scenario_interpolated_isdirectory(ck, stats, rp['length'])
+    elif sc == 'message_path':
+        scenario_message_path(ck, stats, rp['k'], rp['rule'].encode())
+    elif sc == 'hostname':
+        scenario_hostname(ck, stats, rp['length'])
+    elif sc in ('HOME', 'TMPDIR'):
+        scenario_env(ck, stats, sc, rp['length'])
+    else:
+        return 1
+    for v in ck.violations:
+        print(v if isinstance(v, str) else v)
+    return 1 if ck.violations else 0
